@@ -97,6 +97,7 @@ struct Scope {
     const char* name;
     int layers, outpoints, coins, blocks;
     bool quick; // part of the quick tier (the thorough tier runs all scopes)
+    size_t db_batch_bytes{0}; // non-zero: CCoinsViewDB::BatchWrite splits a flush into several LevelDB batches of about this size
 };
 
 enum class Kind : uint8_t { ADD, ADD_UNSPENDABLE, SPEND, GET, HAVE, ACCESS, UNCACHE, EMPLACE, FLUSH, SYNC, RESET, SETBEST, GETBEST, N };
@@ -142,9 +143,15 @@ std::vector<Op> MakeOps(const Scope& S)
 
 // ------------------------------------------------------------------------------------------------ 3. the real objects
 struct Stack {
-    CCoinsViewDB db{DBParams{.path = "c15", .cache_bytes = 1 << 20, .memory_only = true, .obfuscate = true}, CoinsViewOptions{}};
+    static CoinsViewOptions DbOptions(size_t batch_bytes)
+    {
+        CoinsViewOptions o;
+        if (batch_bytes) o.batch_write_bytes = batch_bytes;
+        return o;
+    }
+    CCoinsViewDB db;
     std::vector<std::unique_ptr<CCoinsViewCache>> cache; // cache[i] is backed by cache[i-1], cache[0] by db
-    explicit Stack(int layers)
+    explicit Stack(int layers, size_t db_batch_bytes = 0) : db{DBParams{.path = "c15", .cache_bytes = 1 << 20, .memory_only = true, .obfuscate = true}, DbOptions(db_batch_bytes)}
     {
         for (int i = 0; i < layers; i++)
             cache.push_back(std::make_unique<CCoinsViewCache>(i ? static_cast<CCoinsView*>(cache[i - 1].get()) : &db, /*deterministic=*/true));
@@ -431,7 +438,7 @@ std::string Canon(const Scope& S, const Stack& st, const Model& m)
 bool Replay(const Scope& S, const std::vector<Op>& ops, const std::string& hist, std::string& key, bool verbose = false)
 {
     Run R{S, ops, hist, verbose};
-    Stack st(S.layers);
+    Stack st(S.layers, S.db_batch_bytes);
     Model m(S.layers);
     bool unchanged = false;
     std::string key_before;
@@ -460,6 +467,10 @@ bool Replay(const Scope& S, const std::vector<Op>& ops, const std::string& hist,
 const Scope SCOPES[] = {
     {"2L-2P-1C-1B", 2, 2, 1, 1, true},
     {"3L-1P-2C-2B", 3, 1, 2, 2, true},
+    // the same small shape with a database that splits every flush into one LevelDB batch per entry (the multi-batch
+    // path of CCoinsViewDB::BatchWrite, otherwise only reached by flushes above -dbbatchsize)
+    {"2L-2P-1C-1B-dbbatch1", 2, 2, 1, 1, true, 1},
+    {"2L-2P-2C-1B-dbbatch100", 2, 2, 2, 1, false, 100},
     {"2L-2P-2C-1B", 2, 2, 2, 1, false},
     {"3L-1P-3C-2B", 3, 1, 3, 2, false},
     {"3L-2P-1C-1B", 3, 2, 1, 1, false},
